@@ -108,6 +108,16 @@ p["units"] += [
     K("h_mem::mem_cuckoo_alloc", "quick", "cuckoo table: blocks*64 in [slots*l, slots*l+64)"),
     K("h_mem::mem_qf_alloc", "quick", "QF remainder table: blocks*64 in [slots*r, slots*r+64)"),
     K("h_mem::mem_other_sizes", "quick", "Bloom words, CMS counters, HLL registers match the configuration"),
+    K("h_cuckoo::ck_clear_clone", "quick", "cuckoo: clear() / clone keep the block count of a fresh table (no growth on the clear path)", features=["kicks2"], mem_class_gb=10, timeout_s=2400),
+    K("h_qf::qf_clear_clone_q2r2", "quick", "QF: clear() keeps the block count of a fresh table", mem_class_gb=8, timeout_s=2400),
+    K("h_cms::cms_add_w3d2_u8", "quick", "CMS: add_n keeps len and capacity"), K("h_cms::cms_merge_w3d2_u8", "quick", "CMS: merge keeps len, capacity bounded"),
+    K("h_hll::hll_add_hashed_b4", "quick", "HLL: add keeps the register count"), K("h_hll::hll_merge_max_b4", "quick", "HLL: merge keeps the register count"),
+    K("h_bloom::bloom_stable_m64k2", "quick", "Bloom: insert keeps m and the block count"), K("h_bloom::bloom_union_m64k2", "quick", "Bloom: union keeps m and the block count"),
+    K("h_reservoir::reservoir_step_k3", "quick", "reservoir: len <= k, capacity unchanged once full"),
+    K("h_tdigest::td_insert_step_c2b1", "quick", "TDigest: backlog length <= max_backlog_size after insert"),
+    K("h_tdigest::td_insert_merges_backlog0", "quick", "TDigest: backlog 0 merges at once", mem_class_gb=8, timeout_s=2400),
+    M("ck_insert_bs2nb2k2", "quick", "cuckoo: insert (Ok and Err paths) never changes the table length (array contract: out-of-range writes are panic paths, all infeasible)", "bs2nb2k2", model="cuckoo", op="insert", bs=2, nb=2, kicks=2, need_witness=["ok", "err"]),
+    M("heap_add_step", "quick", "CMSHeap: |tracked| <= k is part of the invariant preserved by add", "K=3, k<=2", model="heap", what_m="add", kmax=2, need_witness=["ret"]),
 ]
 
 # --------------------------------------------------------------------------- C15
@@ -125,11 +135,13 @@ p = prop("C15",
 for n, tier in (("n1", "quick"), ("n2", "quick"), ("n3", "thorough")):
     p["units"] += [
         K("h_tdigest::td_quantile_ends_" + n, tier, "quantile(0)=min, quantile(1)=max", n, mem_class_gb=6),
-        K("h_tdigest::td_quantile_monotone_" + n, tier, "quantile monotone on the 1/16 grid, within [min,max], repeatable", n, mem_class_gb=6, timeout_s=1800),
-        K("h_tdigest::td_cdf_shape_" + n, tier, "cdf monotone, in [0,1], 0 below min, 1 from max", n, mem_class_gb=6, timeout_s=1800),
+        K("h_tdigest::td_quantile_monotone_" + n, tier, "quantile monotone on adjacent points of the 1/16 grid (hence on the grid), within [min,max]", n, mem_class_gb=6, timeout_s=1800),
+        K("h_tdigest::td_cdf_shape_" + n, tier, "cdf monotone on adjacent half-integer points (hence on the grid), in [0,1], 0 below min, 1 from max", n, mem_class_gb=6, timeout_s=1800),
         K("h_tdigest::td_roundtrip_" + n, tier, "|cdf(quantile(q)) - q| <= w_max/S (strictly increasing means)", n, mem_class_gb=6, timeout_s=1800),
     ]
-p["units"] += [K("h_tdigest::td_empty_reads", "quick", "empty digest: NaN / 0")]
+p["units"] += [K("h_tdigest::td_empty_reads", "quick", "empty digest: NaN / 0"),
+               K("h_tdigest::td_repeatable_n1", "quick", "repeated reads return identical values and leave aggregates alone", "n1", mem_class_gb=6, timeout_s=1800),
+               K("h_tdigest::td_repeatable_n2", "thorough", "repeated reads", "n2", mem_class_gb=6, timeout_s=3600)]
 # --------------------------------------------------------------------------- C16
 p = prop("C16",
          functions=["TDigest::{insert,insert_weighted,count,sum,mean,min,max,is_empty,n_centroids}", "TDigestInner::{insert_weighted,merge}", "Centroid::{fuse,mean}", "K0::{f,f_inv}"],
@@ -138,6 +150,8 @@ p = prop("C16",
          assumptions=TD_ASSUME + ["aggregates are observed as raw totals over centroids+backlog through verif hooks, and through count()/sum()/mean() after the merge"])
 p["units"] += [
     K("h_tdigest::td_insert_step_c0b0", "quick", "insert_weighted into the empty digest"),
+    K("h_tdigest::td_insert_any_weight_c0", "quick", "insert_weighted with ANY finite weight >= 0 into the empty digest: positive weights are recorded exactly, min/max updated, not empty", "w any f64"),
+    K("h_tdigest::td_insert_any_weight_c1", "quick", "same into a one-centroid digest", "w any f64"),
     K("h_tdigest::td_insert_step_c2b1", "quick", "insert_weighted, 2 centroids + 1 backlog"),
     K("h_tdigest::td_insert_step_c1b2", "quick", "insert_weighted, 1 centroid + 2 backlog"),
     K("h_tdigest::td_merge_step_c1b1_fuse", "quick", "merge 1+1, delta=1.1", mem_class_gb=8, timeout_s=1800),
@@ -257,9 +271,10 @@ p["units"] += [
 ]
 
 # --------------------------------------------------------------------------- C20
-p = prop("C20", engine="kani",
+p = prop("C20",
          functions=["<HyperLogLog as Deserialize>::deserialize (Field visitor, HyperLogLogVisitor::visit_map)", "<HyperLogLog as Serialize>::serialize", "HyperLogLog::{add_hashed,merge,clone,eq}"],
-         bounds={"quick": "18 document shapes (all 6 field orders, omissions, duplicates, empty; register counts 0,1,15,16,17), in each b any u64 and every register any u8; round trip of every b=4 sketch",
+         engine="kani+mir2smt",
+         bounds={"quick": "engine M: validation logic for every b and every register count (vector of symbolic length); Kani: 18 document shapes (all 6 field orders, omissions, duplicates, empty; register counts 0,1,15,16,17), in each b any u64 and every register any u8; round trip of every b=4 sketch",
                  "thorough": "adds register lengths {31,32,33}"},
          outside=["JSON/other text formats (serde_json is not encoded; the serde data model is the interface the crate is written against)", "b >= 6 accepted documents (2^b registers) — acceptance logic is identical, length relation is checked symbolically in b"],
          assumptions=COMMON_K_ASSUME + ["harness Deserializer/MapAccess/Serializer implement the serde data model; the error type discards messages (no formatting)"])
@@ -287,6 +302,8 @@ p["units"] += [
     K("h_serde::serde_deser_rbh_len33", "thorough", "same at 32 registers", "rbh_len33", mem_class_gb=6, timeout_s=3000),
     K("h_serde::serde_roundtrip_b4", "quick", "serialize -> deserialize gives an equal sketch with the same reaction to add", "b=4", mem_class_gb=6, timeout_s=3000),
     K("h_hll::hll_count_no_panic_b4", "quick", "count() returns for any register contents (b=4); the empty sketch counts 0", "b=4", mem_class_gb=10, timeout_s=3000),
+    M("serde_validation_all_b_all_len", "quick", "engine M on the MIR of visit_map with a MapAccess contract: for all 6 field orders, EVERY b (u64) and EVERY register count: Ok => 4<=b<=18 and len=2^b, fields passed through; valid => Ok (incl. b=18); 9 incomplete/duplicate shapes => Err",
+      "all b, all len", model="serde", need_witness=["accepts_b18", "accepts_b4", "rejects_b19", "rejects_b3"]),
 ]
 
 # --------------------------------------------------------------------------- C01
@@ -374,7 +391,7 @@ p["units"] += [
 p = prop("C05", engine="kani",
          technique="bounded model checking (Kani/CBMC) of the per-step sampling-law conditions that are equivalent to uniformity under the contract that rand's samplers are uniform on the requested range",
          functions=["ReservoirSampling::add (all three phases)", "rand::Rng::gen_range (real sampler; wmul kernel stubbed, requested range observed)"],
-         bounds="k in {1,2,3}; i symbolic in [k, 2^20]; every RNG word arbitrary; ln replaced by a sound over-approximation (1-1/x <= ln x <= x-1)",
+         bounds="k in {1,2,3}; reservoir phase and skipped items: i symbolic up to 2^20; accepted items in the skipping phase: (k,i) in {(1,4),(2,8),(2,21),(3,100)}; every RNG word arbitrary; ln replaced by a sound over-approximation",
          outside=["the size of the bias inherent in the documented gap-sampling approximation for n >> 4k (no reference law to compare with beyond the two robust gap implications)",
                   "a different-but-also-uniform sampling scheme would fail the structural conditions (accepted, see level_note)", "k > 3, i > 2^20"],
          assumptions=COMMON_K_ASSUME + ["rand 0.8 samplers are uniform on the range they are asked for (trusted); the requested range and the drawn value are observed through the wmul stub",
@@ -383,8 +400,11 @@ p = prop("C05", engine="kani",
 p["level_note_extra"] = "structural form of the property: uniformity itself is a probability over the RNG and is reduced to universally quantified per-step conditions"
 for k in (1, 2, 3):
     p["units"].append(K("h_reservoir::c05_reservoir_phase_k%d" % k, "quick", "reservoir phase: one integer draw from exactly i+1 values; stored iff draw < k, in that slot", "k=%d" % k))
-    p["units"].append(K("h_reservoir::c05_gap_phase_k%d" % k, "quick", "skipping phase: skipped items change nothing; accepted item goes to a slot drawn from k values; next gap certainly 0 / certainly >0 in the robust u ranges", "k=%d" % k,
-                        must_cover=["item_skipped", "next_item_accepted", "next_item_skipped"]))
+for k in (1, 3):
+    p["units"].append(K("h_reservoir::c05_gap_skipped_k%d" % k, "quick", "skipping phase, item below skip_until: nothing changes, no randomness consumed", "k=%d, i symbolic" % k))
+for nm in ("k1_i4", "k2_i8", "k2_i21", "k3_i100"):
+    p["units"].append(K("h_reservoir::c05_gap_accepted_" + nm, "quick", "skipping phase, accepted item: slot drawn from k values; next gap is 0 / exactly 1 in the u bands where that holds for any libm", nm,
+                        must_cover=["next_item_accepted", "band_gap_one"], timeout_s=1800))
 for k in (1, 2):
     p["units"].append(K("h_reservoir::c05_switch_k%d" % k, "quick", "the item at the phase switch (i=4k) is not forced into the reservoir: both outcomes possible", "k=%d" % k,
                         must_cover=["switch_item_can_be_skipped", "switch_item_can_be_kept"]))
